@@ -309,11 +309,11 @@ theorem nFinished_append (k : Nat) : ∀ (a b : List Ev), nFinished k (a ++ b) =
     have := nFinished_append k a b
     cases x <;> simp [nFinished, this] <;> omega
 
-theorem nStarted_map_loaded (k k' v t : Nat) : ∀ (ws : List Nat), nStarted k (ws.map fun c => Ev.loaded c k' v t) = 0
+theorem nStarted_map_loaded (k k' : Nat) (v : Val) (t : Nat) : ∀ (ws : List Nat), nStarted k (ws.map fun c => Ev.loaded c k' v t) = 0
   | [] => rfl
   | _ :: r => by simp [nStarted, nStarted_map_loaded k k' v t r]
 
-theorem nFinished_map_loaded (k k' v t : Nat) : ∀ (ws : List Nat), nFinished k (ws.map fun c => Ev.loaded c k' v t) = 0
+theorem nFinished_map_loaded (k k' : Nat) (v : Val) (t : Nat) : ∀ (ws : List Nat), nFinished k (ws.map fun c => Ev.loaded c k' v t) = 0
   | [] => rfl
   | _ :: r => by simp [nFinished, nFinished_map_loaded k k' v t r]
 
@@ -608,5 +608,72 @@ theorem run_reach {cfg : Config} {ops : List Op} {s : State} {tr : List Ev} (h :
     Reach cfg s tr := by
   have := runWith_reach ops Reach.init h
   simpa using this
+
+/-- `_keys_by_expiry` is sorted: ascending expiry -/
+def Sorted (l : List Entry) : Prop := l.Pairwise (fun a b => a.expiry ≤ b.expiry)
+
+theorem insertByExpiry_sorted (e : Entry) : ∀ (l : List Entry), Sorted l → Sorted (insertByExpiry e l)
+  | [], _ => by simp [insertByExpiry, Sorted]
+  | x :: r, h => by
+    have hx := List.pairwise_cons.mp h
+    simp only [insertByExpiry]
+    split
+    · next hle =>
+      have ih := insertByExpiry_sorted e r hx.2
+      refine List.pairwise_cons.mpr ⟨?_, ih⟩
+      intro y hy
+      have := (insertByExpiry_perm e r).mem_iff.mp hy
+      rcases List.mem_cons.mp this with rfl | hy'
+      · exact hle
+      · exact hx.1 y hy'
+    · next hnle =>
+      refine List.pairwise_cons.mpr ⟨?_, h⟩
+      intro y hy
+      rcases List.mem_cons.mp hy with rfl | hy'
+      · omega
+      · have := hx.1 y hy'; omega
+
+theorem sorted_step {cfg : Config} {s s' : State} {tr e : List Ev} {op : Op} (hi : Inv cfg s tr) (hs : Sorted s.entries)
+    (h : step cfg s op = some (s', e)) : Sorted s'.entries := by
+  cases op with
+  | lookup c k =>
+    simp only [step] at h
+    split at h
+    · simp at h
+    · have hsub := expire_sublist k s.now s.entries
+      have := hs.sublist hsub
+      split at h
+      · simp at h; obtain ⟨rfl, _⟩ := h; exact this
+      · split at h <;> (simp at h; obtain ⟨rfl, _⟩ := h; exact this)
+  | loadOk k v =>
+    simp only [step] at h
+    split at h
+    · simp at h
+    · next ws hw =>
+      simp at h; obtain ⟨rfl, _⟩ := h
+      have hkin : k ∈ ikeys s.inflight := waitersOf_some_mem hw
+      have hknot : k ∉ ekeys s.entries := hi.disj k hkin
+      have hput : put ⟨k, v, s.now + cfg.lifetime⟩ s.entries = insertByExpiry ⟨k, v, s.now + cfg.lifetime⟩ s.entries := by
+        unfold put
+        have := findKey_none.mpr hknot
+        simp only [this]
+      simp only [hput]
+      exact (insertByExpiry_sorted _ _ hs).sublist (evictIfOver_sublist _ _)
+  | loadFail k =>
+    simp only [step] at h
+    split at h
+    · simp at h
+    · simp at h; obtain ⟨rfl, _⟩ := h; exact hs
+  | cancelCaller c =>
+    simp only [step] at h
+    split at h <;> (simp at h; obtain ⟨rfl, _⟩ := h; exact hs)
+  | advance dt =>
+    simp only [step] at h
+    simp at h; obtain ⟨rfl, _⟩ := h; exact hs
+
+theorem reach_sorted {cfg : Config} {s : State} {tr : List Ev} (h : Reach cfg s tr) : Sorted s.entries := by
+  induction h with
+  | init => simp [init, Sorted]
+  | step hr hs ih => exact sorted_step (reach_inv hr) ih hs
 
 end HailVerif.Cache
